@@ -115,21 +115,30 @@ def toCoreM (s : Str) (m : Emphasis.Match) : CoreM :=
   { start := m.openStart, stop := m.closeStop, kind := if m.strong then .strong else .emphasis,
     ts := m.openStop, te := m.closeStart, dest := [], title := [], delimiter := (s[m.openStart]?).getD ' ' }
 
-/-- **`Delimiter(start, end, string)` for a delimiter run is the specification's stack entry** -/
-theorem mkDelim_eq_toDelim (s : Str) (c : Char) (a n : Nat) (h : StdWs s) (hn : 1 ≤ n)
+/-- the stack entry of a run, classified by mistletoe's own `is_opener` / `is_closer` -/
+def mkRunM (s : Str) (c : Char) (a n : Nat) : Emphasis.Run :=
+  { char := c, start := a, orig := n, count := n, canOpen := isOpener a (a + n) s, canClose := isCloser a (a + n) s }
+
+/-- `Delimiter(start, end, string)` for a run of `n` characters `c` at `a` -/
+theorem mkDelim_eq_toDelimM (s : Str) (c : Char) (a n : Nat) (hn : 1 ≤ n)
     (hd : Emphasis.isDelimChar c = true) (hsl : slice s a (a + n) = List.replicate n c) :
-    mkDelim a (a + n) s = toDelim (Emphasis.mkRun s c a n) := by
+    mkDelim a (a + n) s = toDelim (mkRunM s c a n) := by
   have hhead : (slice s a (a + n)).head? = some c := by
     rw [hsl]; cases n with
     | zero => omega
     | succ k => rfl
-  have hc : s[a]? = some c := by rw [← slice_head s a (a + n) (by omega)]; exact hhead
   have he : ((some c == some '*') || (some c == some '_')) = true := by
     simpa [Emphasis.isDelimChar] using hd
-  unfold mkDelim toDelim Emphasis.mkRun
-  simp only [hhead, he, Bool.true_and, Nat.add_sub_cancel_left,
-    isOpener_eq s a (a + n) c h hc, isCloser_eq s a (a + n) c h hc]
+  unfold mkDelim toDelim mkRunM
+  simp only [hhead, he, Bool.true_and, Nat.add_sub_cancel_left]
   rw [hsl]
+
+/-- **On a text without the eight deviant whitespace characters, mistletoe's classification of a
+    delimiter run is the specification's** ("can open emphasis", "can close emphasis"). -/
+theorem mkRunM_eq (s : Str) (c : Char) (a n : Nat) (h : StdWs s) (hc : s[a]? = some c) :
+    mkRunM s c a n = Emphasis.mkRun s c a n := by
+  unfold mkRunM Emphasis.mkRun
+  rw [isOpener_eq s a (a + n) c h hc, isCloser_eq s a (a + n) c h hc]
 
 /-! ### the delimiter runs of a text -/
 
@@ -441,23 +450,40 @@ theorem plain_no_backtick {s : Str} (hp : Emphasis.plain s = true) : '`' ∉ s :
   have := plain_mem hp _ h
   revert this; decide
 
-/-- the delimiters of the runs, as the character loop builds them, are the stack entries of the
-    specification -/
-theorem spanDelims_eq (s : Str) (hw : StdWs s) :
-    (Emphasis.runSpans none 0 s).map (spanDelim s) = (Emphasis.runs s).map toDelim := by
-  unfold Emphasis.runs
+/-- the delimiter runs of a text with mistletoe's classification -/
+def runsM (s : Str) : List Emphasis.Run :=
+  (Emphasis.runSpans none 0 s).map (fun r => mkRunM s r.1 r.2.1 r.2.2)
+
+/-- they are the delimiter stack of the specification, when the text has none of the eight deviant
+    whitespace characters -/
+theorem runsM_eq (s : Str) (hw : StdWs s) : runsM s = Emphasis.runs s := by
+  unfold runsM Emphasis.runs
+  apply List.map_congr_left
+  intro r hr
+  obtain ⟨h1, _, h3, h4⟩ := runSpans_spec s [] none r (by simpa using hr)
+  simp only [List.nil_append] at h4
+  apply mkRunM_eq s r.1 r.2.1 r.2.2 hw
+  rw [← slice_head s r.2.1 (r.2.1 + r.2.2) (by omega), h4]
+  cases hn : r.2.2 with
+  | zero => omega
+  | succ k => rfl
+
+/-- the delimiters of the runs, as the character loop builds them -/
+theorem spanDelims_eq (s : Str) :
+    (Emphasis.runSpans none 0 s).map (spanDelim s) = (runsM s).map toDelim := by
+  unfold runsM
   rw [List.map_map]
   apply List.map_congr_left
   intro r hr
   obtain ⟨h1, _, h3, h4⟩ := runSpans_spec s [] none r (by simpa using hr)
   simp only [List.nil_append] at h4
-  exact mkDelim_eq_toDelim s r.1 r.2.1 r.2.2 hw h3 h1 h4
+  exact mkDelim_eq_toDelimM s r.1 r.2.1 r.2.2 h3 h1 h4
 
 /-- **`find_core_tokens` on a plain text** = `process_emphasis` (without bottoms) on the delimiter
-    stack of the specification, with no previous match -/
-theorem findCoreTokensNB_plain (s : Str) (fn : Footnotes.Table) (hp : Emphasis.plain s = true) (hw : StdWs s) :
+    runs of the text, with no previous match -/
+theorem findCoreTokensNB_plain (s : Str) (fn : Footnotes.Table) (hp : Emphasis.plain s = true) :
     findCoreTokensNB s fn =
-      match processEmphasisNB s none ((Emphasis.runs s).map toDelim) [] with
+      match processEmphasisNB s none ((runsM s).map toDelim) [] with
       | .err e => .err e
       | .ok (_, ms) => .ok (ms.reverse, []) := by
   obtain ⟨st', e1, e2, e3, e4, e5⟩ := coreLoopNB_plain s fn (plain_mem hp) s [] { code := codeSearch s 0 } (s.length + 2)
@@ -468,10 +494,10 @@ theorem findCoreTokensNB_plain (s : Str) (fn : Footnotes.Table) (hp : Emphasis.p
   rw [e1]
   simp only [e2, Bool.not_false, if_true]
   have hds : (if st'.inRun.isSome then pushDelim st' (mkDelim st'.start s.length s) else st').ds =
-      (Emphasis.runs s).map toDelim := by
+      (runsM s).map toDelim := by
     have := e5
     simp only [finalDs, pendingHead, List.getLast?_nil, List.length_nil, List.nil_append, List.append_nil] at this
-    rw [this, spanDelims_eq s hw]
+    rw [this, spanDelims_eq s]
   have hms : (if st'.inRun.isSome then pushDelim st' (mkDelim st'.start s.length s) else st').ms = [] := by
     split <;> simp [pushDelim, e3]
   have hcs : (if st'.inRun.isSome then pushDelim st' (mkDelim st'.start s.length s) else st').codes = [] := by
@@ -527,10 +553,11 @@ theorem emphStepNB_some (s : Str) (A B C : List Delim) (o c : Delim) (ms : List 
   | some dch =>
     simp only
     rw [take_drop_two]
-    have hmm : ({ start := o.stop - emphN o c, stop := c.start + emphN o c,
-                 kind := if emphN o c = 2 then Kind.strong else Kind.emphasis,
-                 ts := o.stop - emphN o c + emphN o c, te := c.start + emphN o c - emphN o c,
-                 dest := [], title := [], delimiter := dch } : CoreM) = emphMatch o c (emphN o c) dch := rfl
+    have hmm :
+        ({ start := o.stop - emphN o c, stop := c.start + emphN o c,
+           kind := if emphN o c = 2 then Kind.strong else Kind.emphasis,
+           ts := o.stop - emphN o c + emphN o c, te := c.start + emphN o c - emphN o c,
+           dest := [], title := [], delimiter := dch } : CoreM) = emphMatch o c (emphN o c) dch := rfl
     rw [hmm]
     have set_mid : ∀ (X : List Delim) (a b : Delim), (A ++ a :: X).set A.length b = A ++ b :: X := by
       intro X a b; simp
@@ -545,5 +572,826 @@ theorem emphStepNB_some (s : Str) (A B C : List Delim) (o c : Delim) (ms : List 
       cases hcr : delimRemove c (emphN o c) true with
       | none => simp [erase_mid1, set_mid, shrink, hor, hcr]
       | some c' => simp [set_mid1, set_mid, shrink, hor, hcr]
+
+/-! ### `Delimiter` operations on stack entries of the specification -/
+
+theorem toDelim_head (r : Emphasis.Run) (h : 1 ≤ r.count) : (toDelim r).type.head? = some r.char := by
+  simp only [toDelim, List.head?_replicate]
+  rw [if_neg (by omega)]
+
+/-- **`Delimiter.closed_by` is "same character, and the rule of three"** (rules 9 and 10) -/
+theorem closedBy_toDelim (o c : Emphasis.Run) (ho : 1 ≤ o.count) (hc : 1 ≤ c.count) :
+    closedBy (toDelim o) (toDelim c) = .ok (o.char == c.char && Emphasis.ruleOfThree o c) := by
+  unfold closedBy
+  rw [toDelim_head o ho, toDelim_head c hc]
+  show (if (o.char != c.char) = true then Res.ok false
+        else if ((o.canOpen && o.canClose) || (c.canOpen && c.canClose)) = true then
+          Res.ok ((o.orig + c.orig) % 3 != 0 || (o.orig % 3 == 0 && c.orig % 3 == 0))
+        else Res.ok true) = _
+  unfold Emphasis.ruleOfThree
+  by_cases hcc : o.char = c.char
+  · by_cases hx : ((o.canOpen && o.canClose) || (c.canOpen && c.canClose)) = true
+    · simp [hcc, hx]
+    · simp [hcc, hx]
+  · have h1 : (o.char != c.char) = true := by simpa using hcc
+    have h2 : (o.char == c.char) = false := by simpa using hcc
+    simp [h1, h2]
+
+/-- **`matching_opener` is "look back in the stack for the first matching potential opener"**, on
+    the part of the stack below the closer -/
+theorem go_below (c : Emphasis.Run) (hc : 1 ≤ c.count) : ∀ (below : List Emphasis.Run) (Y : List Delim) (n : Nat),
+    (∀ r ∈ below, 1 ≤ r.count) → below.length ≤ n → below ≠ [] →
+    matchingOpener.go (below.reverse.map toDelim ++ Y) (toDelim c) 0 n (below.length - 1) =
+      match Emphasis.lookBack c none below with
+      | none => .ok none
+      | some (o, under) => .ok (some under.length)
+  | [], _, _, _, _, h => absurd rfl h
+  | o :: rest, Y, 0, _, h, _ => by simp at h
+  | o :: rest, Y, n + 1, hpos, hn, _ => by
+    have hidx : ((o :: rest).reverse.map toDelim ++ Y)[rest.length]? = some (toDelim o) := by
+      simp
+    simp only [List.length_cons, Nat.add_sub_cancel, matchingOpener.go, Nat.not_lt_zero, if_false, hidx,
+      Emphasis.lookBack, Emphasis.aboveBottom, if_true]
+    have ho := hpos o (by simp)
+    rw [closedBy_toDelim o c ho hc]
+    have hrec : (if rest.length = 0 then Res.ok none
+        else matchingOpener.go ((o :: rest).reverse.map toDelim ++ Y) (toDelim c) 0 n (rest.length - 1)) =
+        match Emphasis.lookBack c none rest with
+        | none => .ok none
+        | some (o, under) => .ok (some under.length) := by
+      cases rest with
+      | nil => simp [Emphasis.lookBack]
+      | cons o2 rest2 =>
+        rw [if_neg (by simp)]
+        have := go_below c hc (o2 :: rest2) (toDelim o :: Y) n (fun r hr => hpos r (by simp [hr]))
+          (by simp at hn ⊢; omega) (by simp)
+        rw [← this]
+        congr 1
+        simp
+    have hcm : Emphasis.canMatch o c = (o.canOpen && (o.char == c.char && Emphasis.ruleOfThree o c)) := by
+      simp [Emphasis.canMatch, Bool.and_assoc]
+    have hop : ((toDelim o).emph && (toDelim o).opens) = o.canOpen := by simp [toDelim]
+    simp only [hcm, hop]
+    by_cases hco : o.canOpen = true
+    · simp only [hco, Bool.true_and, if_true]
+      cases hb : (o.char == c.char && Emphasis.ruleOfThree o c) with
+      | true => simp
+      | false => simpa using hrec
+    · have hco' : o.canOpen = false := by simpa using hco
+      simp only [hco', Bool.false_and, Bool.false_eq_true, if_false]
+      exact hrec
+
+theorem matchingOpener_below (c : Emphasis.Run) (hc : 1 ≤ c.count) (below : List Emphasis.Run) (C : List Delim)
+    (hpos : ∀ r ∈ below, 1 ≤ r.count) :
+    matchingOpener below.length (below.reverse.map toDelim ++ toDelim c :: C) none =
+      match Emphasis.lookBack c none below with
+      | none => .ok none
+      | some (o, under) => .ok (some under.length) := by
+  unfold matchingOpener
+  by_cases hb : below = []
+  · subst hb; simp [Emphasis.lookBack]
+  · have hl : below.length ≠ 0 := fun e => hb (List.eq_nil_of_length_eq_zero e)
+    rw [if_neg hl]
+    have hcur : (below.reverse.map toDelim ++ toDelim c :: C)[below.length]? = some (toDelim c) := by
+      simp
+    rw [hcur]
+    simp only
+    exact go_below c hc below (toDelim c :: C) below.length hpos (Nat.le_refl _) hb
+
+theorem lookBack_none_split (c : Emphasis.Run) : ∀ (below : List Emphasis.Run) (o : Emphasis.Run) (under : List Emphasis.Run),
+    Emphasis.lookBack c none below = some (o, under) → ∃ skipped, below = skipped ++ o :: under
+  | [], _, _, h => by simp [Emphasis.lookBack] at h
+  | x :: rest, o, under, h => by
+    simp only [Emphasis.lookBack, Emphasis.aboveBottom, if_true] at h
+    split at h
+    · simp only [Option.some.injEq, Prod.mk.injEq] at h
+      obtain ⟨rfl, rfl⟩ := h
+      exact ⟨[], rfl⟩
+    · obtain ⟨sk, hsk⟩ := lookBack_none_split c rest o under h
+      exact ⟨x :: sk, by rw [hsk]; rfl⟩
+
+theorem emphN_toDelim (o c : Emphasis.Run) :
+    emphN (toDelim o) (toDelim c) = if (decide (2 ≤ o.count) && decide (2 ≤ c.count)) = true then 2 else 1 := by
+  unfold emphN toDelim
+  simp only [ge_iff_le]
+  rw [Bool.and_comm]
+
+/-- **`Delimiter.remove(n, left=False)`** on an opener: its last `n` characters go -/
+theorem shrink_opener (o : Emphasis.Run) (n : Nat) (hn : n ≤ o.count) :
+    shrink (toDelim o) n false = if o.count - n = 0 then [] else [toDelim { o with count := o.count - n }] := by
+  unfold shrink delimRemove
+  by_cases h : o.count = n
+  · simp [toDelim, h]
+  · have h0 : o.count - n ≠ 0 := by omega
+    simp only [toDelim, h, if_false, Bool.false_eq_true, Option.toList_some, h0, List.drop_replicate]
+    congr 2
+    · omega
+    · omega
+
+/-- **`Delimiter.remove(n, left=True)`** on a closer: its first `n` characters go -/
+theorem shrink_closer (c : Emphasis.Run) (n : Nat) (hn : n ≤ c.count) :
+    shrink (toDelim c) n true =
+      if c.count - n = 0 then [] else [toDelim { c with start := c.start + n, count := c.count - n }] := by
+  unfold shrink delimRemove
+  by_cases h : c.count = n
+  · simp [toDelim, h]
+  · have h0 : c.count - n ≠ 0 := by omega
+    simp only [toDelim, h, if_false, if_true, Option.toList_some, h0, List.drop_replicate]
+    congr 2
+    · omega
+    · omega
+
+/-! ### the procedure of the specification without `openers_bottom` -/
+
+def noBottoms : Emphasis.Key → Option Nat := fun _ => none
+
+/-- forget `openers_bottom` -/
+def forget (st : Emphasis.State) : Emphasis.State := { st with bottoms := noBottoms }
+
+/-- one round in which the opener is searched down to the bottom of the stack -/
+def stepNB (st : Emphasis.State) : Option Emphasis.State := (Emphasis.step (forget st)).map forget
+
+def runNB : Nat → Emphasis.State → Emphasis.State
+  | 0, st => st
+  | n + 1, st =>
+    match stepNB st with
+    | none => st
+    | some st' => runNB n st'
+
+/-- every stack entry still holds at least one delimiter character -/
+def Pos (st : Emphasis.State) : Prop := ∀ r ∈ st.below ++ st.above, 1 ≤ r.count
+
+theorem total_append (A B : List Emphasis.Run) : Emphasis.total (A ++ B) = Emphasis.total A + Emphasis.total B := by
+  induction A with
+  | nil => simp [Emphasis.total]
+  | cons d A ih => simp only [List.cons_append, Emphasis.total, ih]; omega
+
+theorem lookBack_split (c : Emphasis.Run) (b : Option Nat) : ∀ (below : List Emphasis.Run) (o : Emphasis.Run)
+    (under : List Emphasis.Run), Emphasis.lookBack c b below = some (o, under) →
+    ∃ skipped, below = skipped ++ o :: under
+  | [], _, _, h => by simp [Emphasis.lookBack] at h
+  | x :: rest, o, under, h => by
+    simp only [Emphasis.lookBack] at h
+    split at h
+    · split at h
+      · simp only [Option.some.injEq, Prod.mk.injEq] at h
+        obtain ⟨rfl, rfl⟩ := h
+        exact ⟨[], rfl⟩
+      · obtain ⟨sk, hsk⟩ := lookBack_split c b rest o under h
+        exact ⟨x :: sk, by rw [hsk]; rfl⟩
+    · cases h
+
+/-- **Every round makes the measure smaller and keeps the entries non-empty**, whatever the
+    `openers_bottom` are. -/
+theorem step_measure (st st' : Emphasis.State) (hpos : Pos st) (h : Emphasis.step st = some st') :
+    Emphasis.measure st' < Emphasis.measure st ∧ Pos st' := by
+  unfold Emphasis.step at h
+  cases ha : st.above with
+  | nil => rw [ha] at h; cases h
+  | cons c rest =>
+    rw [ha] at h
+    simp only at h
+    have hposb : ∀ r ∈ st.below, 1 ≤ r.count := fun r hr => hpos r (by simp [hr])
+    have hposc : 1 ≤ c.count := hpos c (by simp [ha])
+    have hposr : ∀ r ∈ rest, 1 ≤ r.count := fun r hr => hpos r (by simp [ha, hr])
+    split at h
+    · cases h
+      refine ⟨?_, fun r hr => ?_⟩
+      · simp only [Emphasis.measure, ha, Emphasis.total, List.length_cons]; omega
+      · simp only [List.mem_append, List.mem_cons] at hr
+        rcases hr with (rfl | hr) | hr
+        · exact hposc
+        · exact hposb r hr
+        · exact hposr r hr
+    · split at h
+      · rename_i o under hlb
+        obtain ⟨sk, hsk⟩ := lookBack_split c _ _ o under hlb
+        have hposo : 1 ≤ o.count := hposb o (by rw [hsk]; simp)
+        have hposu : ∀ r ∈ under, 1 ≤ r.count := fun r hr => hposb r (by rw [hsk]; simp [hr])
+        cases h
+        have hn : (if (decide (2 ≤ o.count) && decide (2 ≤ c.count)) = true then 2 else 1) ≤ o.count ∧
+            (if (decide (2 ≤ o.count) && decide (2 ≤ c.count)) = true then 2 else 1) ≤ c.count ∧
+            1 ≤ (if (decide (2 ≤ o.count) && decide (2 ≤ c.count)) = true then 2 else 1) := by
+          split
+          · rename_i h2; simp only [Bool.and_eq_true, decide_eq_true_eq] at h2; omega
+          · omega
+        generalize (if (decide (2 ≤ o.count) && decide (2 ≤ c.count)) = true then 2 else 1) = n at hn ⊢
+        refine ⟨?_, fun r hr => ?_⟩
+        · simp only [Emphasis.measure, ha, hsk, total_append, Emphasis.total, List.length_cons]
+          split <;> split <;> (try simp only [Emphasis.total, List.length_cons]) <;> omega
+        · simp only [List.mem_append] at hr
+          rcases hr with hr | hr
+          · split at hr
+            · exact hposu r hr
+            · rename_i h0
+              rcases List.mem_cons.1 hr with rfl | hr
+              · simp only at h0 ⊢; omega
+              · exact hposu r hr
+          · split at hr
+            · exact hposr r hr
+            · rename_i h0
+              rcases List.mem_cons.1 hr with rfl | hr
+              · simp only at h0 ⊢; omega
+              · exact hposr r hr
+      · cases h
+        refine ⟨?_, fun r hr => ?_⟩
+        · simp only [Emphasis.measure, ha, Emphasis.total, List.length_cons]
+          split <;> (try simp only [Emphasis.total]) <;> omega
+        · simp only [List.mem_append] at hr
+          rcases hr with hr | hr
+          · split at hr
+            · rcases List.mem_cons.1 hr with rfl | hr
+              · exact hposc
+              · exact hposb r hr
+            · exact hposb r hr
+          · exact hposr r hr
+
+theorem forget_measure (st : Emphasis.State) : Emphasis.measure (forget st) = Emphasis.measure st := rfl
+
+theorem stepNB_measure (st st' : Emphasis.State) (hpos : Pos st) (h : stepNB st = some st') :
+    Emphasis.measure st' < Emphasis.measure st ∧ Pos st' := by
+  unfold stepNB at h
+  cases hs : Emphasis.step (forget st) with
+  | none => rw [hs] at h; cases h
+  | some x =>
+    rw [hs] at h
+    simp only [Option.map_some, Option.some.injEq] at h
+    subst h
+    exact step_measure (forget st) x hpos hs
+
+/-- **The number of rounds that `process` allows is enough**: after `measure st` rounds (or more)
+    from a state whose entries are not empty, there is no element at `current_position`. -/
+theorem run_complete : ∀ (n : Nat) (st : Emphasis.State), Pos st → Emphasis.measure st ≤ n →
+    Emphasis.step (Emphasis.run n st) = none
+  | 0, st, _, hm => by
+    have : st.above = [] := by
+      cases ha : st.above with
+      | nil => rfl
+      | cons c rest => simp [Emphasis.measure, ha] at hm
+    simp [Emphasis.run, Emphasis.step, this]
+  | n + 1, st, hpos, hm => by
+    simp only [Emphasis.run]
+    cases hs : Emphasis.step st with
+    | none => exact hs
+    | some st' =>
+      obtain ⟨h1, h2⟩ := step_measure st st' hpos hs
+      exact run_complete n st' h2 (by omega)
+
+/-! ### simulation: `process_emphasis` without bottoms against the procedure without bottoms -/
+
+/-- the `delimiters` list of a stack of the specification split at `current_position` -/
+def dsOf (below above : List Emphasis.Run) : List Delim := below.reverse.map toDelim ++ above.map toDelim
+
+theorem dsOf_shift (c : Emphasis.Run) (below rest : List Emphasis.Run) :
+    dsOf (c :: below) rest = dsOf below (c :: rest) := by
+  simp [dsOf]
+
+theorem nextCloser_dsOf (below above : List Emphasis.Run) :
+    nextCloser below.length (dsOf below above) = nextCloser.go (above.map toDelim) below.length := by
+  have := nextCloser_append (below.reverse.map toDelim) (above.map toDelim)
+  simpa [dsOf] using this
+
+theorem nextCloser_go_cons (c : Emphasis.Run) (Y : List Delim) (i : Nat) :
+    nextCloser.go (toDelim c :: Y) i = if c.canClose then some i else nextCloser.go Y (i + 1) := by
+  simp [nextCloser.go, toDelim]
+
+theorem runNB_none (n : Nat) (st : Emphasis.State) (h : stepNB st = none) : runNB n st = st := by
+  cases n with
+  | zero => rfl
+  | succ n => simp [runNB, h]
+
+theorem emphLoopNB_none (s : Str) (fuel : Nat) (ds : List Delim) (ms : List CoreM) (r : List Delim × List CoreM)
+    (h : emphLoopNB s none fuel ds ms none = .ok r) : r = (ds, ms) := by
+  cases fuel with
+  | zero => simp [emphLoopNB] at h
+  | succ f => simp only [emphLoopNB, Res.ok.injEq] at h; exact h.symm
+
+theorem emphLoopNB_some (s : Str) (fuel : Nat) (ds : List Delim) (ms : List CoreM) (curr : Nat)
+    (r : List Delim × List CoreM) (h : emphLoopNB s none fuel ds ms (some curr) = .ok r) :
+    ∃ f ds' ms' c', fuel = f + 1 ∧ emphStepNB s none ds ms curr = .ok ((ds', ms'), c') ∧
+      emphLoopNB s none f ds' ms' c' = .ok r := by
+  cases fuel with
+  | zero => simp [emphLoopNB] at h
+  | succ f =>
+    simp only [emphLoopNB] at h
+    cases hs : emphStepNB s none ds ms curr with
+    | err e => rw [hs] at h; cases h
+    | ok x =>
+      obtain ⟨⟨ds', ms'⟩, c'⟩ := x
+      rw [hs] at h
+      exact ⟨f, ds', ms', c', rfl, rfl, h⟩
+
+/-- a matched round, model side, in the vocabulary of the specification -/
+theorem emphStepNB_matched (s : Str) (under skipped rest : List Emphasis.Run) (o c : Emphasis.Run) (ms : List CoreM)
+    (hpos : ∀ r ∈ skipped ++ o :: under, 1 ≤ r.count) (hc : 1 ≤ c.count)
+    (hlb : Emphasis.lookBack c none (skipped ++ o :: under) = some (o, under))
+    (n : Nat) (hn : n = if (decide (2 ≤ o.count) && decide (2 ≤ c.count)) = true then 2 else 1)
+    (below' above' : List Emphasis.Run)
+    (hb : below' = if o.count - n = 0 then under else { o with count := o.count - n } :: under)
+    (ha : above' = if c.count - n = 0 then rest else { c with start := c.start + n, count := c.count - n } :: rest) :
+    emphStepNB s none (dsOf (skipped ++ o :: under) (c :: rest)) ms (skipped ++ o :: under).length =
+      match s[o.start + o.count - n]? with
+      | none => .err .index
+      | some dch =>
+        .ok ((dsOf below' above',
+              toCoreM s { openStart := o.start + o.count - n, openStop := o.start + o.count,
+                          closeStart := c.start, closeStop := c.start + n, strong := n == 2 } :: ms),
+          nextCloser below'.length (dsOf below' above')) := by
+  have ho : 1 ≤ o.count := hpos o (by simp)
+  have hds : dsOf (skipped ++ o :: under) (c :: rest) =
+      under.reverse.map toDelim ++ toDelim o :: (skipped.reverse.map toDelim ++ toDelim c :: rest.map toDelim) := by
+    simp [dsOf]
+  have hlen : (skipped ++ o :: under).length =
+      (under.reverse.map toDelim).length + 1 + (skipped.reverse.map toDelim).length := by
+    simp; omega
+  have hm := matchingOpener_below c hc (skipped ++ o :: under) (rest.map toDelim) hpos
+  rw [hlb] at hm
+  simp only at hm
+  have hds' : (skipped ++ o :: under).reverse.map toDelim ++ toDelim c :: rest.map toDelim =
+      under.reverse.map toDelim ++ toDelim o :: (skipped.reverse.map toDelim ++ toDelim c :: rest.map toDelim) := by
+    simp
+  rw [hds', hlen] at hm
+  have hul : under.length = (under.reverse.map toDelim).length := by simp
+  rw [hul] at hm
+  rw [hds, hlen, emphStepNB_some s _ _ _ _ _ ms c.char hm (toDelim_head c hc)]
+  have hnb : n ≤ o.count ∧ n ≤ c.count ∧ 1 ≤ n := by
+    rw [hn]; split
+    · rename_i h2; simp only [Bool.and_eq_true, decide_eq_true_eq] at h2; omega
+    · omega
+  rw [emphN_toDelim, ← hn, shrink_opener o n hnb.1, shrink_closer c n hnb.2.1]
+  have hstop : (toDelim o).stop - n = o.start + o.count - n := rfl
+  rw [hstop]
+  cases hs : s[o.start + o.count - n]? with
+  | none => rfl
+  | some dch =>
+    simp only
+    have hmatch : emphMatch (toDelim o) (toDelim c) n dch =
+        toCoreM s { openStart := o.start + o.count - n, openStop := o.start + o.count,
+                    closeStart := c.start, closeStop := c.start + n, strong := n == 2 } := by
+      simp only [emphMatch, toCoreM, toDelim, hs, Option.getD_some, beq_iff_eq]
+      congr 1
+      · omega
+      · omega
+    rw [hmatch, hb, ha]
+    by_cases h1 : o.count - n = 0 <;> by_cases h2 : c.count - n = 0 <;> simp [h1, h2, dsOf]
+
+theorem stepNB_nil (st : Emphasis.State) (ha : st.above = []) : stepNB st = none := by
+  simp [stepNB, forget, Emphasis.step, ha]
+
+theorem stepNB_shift (st : Emphasis.State) (c : Emphasis.Run) (rest : List Emphasis.Run) (ha : st.above = c :: rest)
+    (hcl : c.canClose = false) :
+    stepNB st = some { below := c :: st.below, above := rest, bottoms := noBottoms, found := st.found } := by
+  simp [stepNB, forget, Emphasis.step, ha, hcl]
+
+theorem stepNB_nomatch (st : Emphasis.State) (c : Emphasis.Run) (rest : List Emphasis.Run) (ha : st.above = c :: rest)
+    (hcl : c.canClose = true) (hlb : Emphasis.lookBack c none st.below = none) :
+    stepNB st = some { below := if c.canOpen then c :: st.below else st.below, above := rest,
+                       bottoms := noBottoms, found := st.found } := by
+  simp [stepNB, forget, Emphasis.step, ha, hcl, noBottoms, hlb]
+
+theorem stepNB_match (st : Emphasis.State) (c : Emphasis.Run) (rest : List Emphasis.Run) (ha : st.above = c :: rest)
+    (hcl : c.canClose = true) (o : Emphasis.Run) (under : List Emphasis.Run)
+    (hlb : Emphasis.lookBack c none st.below = some (o, under))
+    (n : Nat) (hn : n = if (decide (2 ≤ o.count) && decide (2 ≤ c.count)) = true then 2 else 1) :
+    stepNB st = some
+      { below := if o.count - n = 0 then under else { o with count := o.count - n } :: under,
+        above := if c.count - n = 0 then rest else { c with start := c.start + n, count := c.count - n } :: rest,
+        bottoms := noBottoms,
+        found := { openStart := o.start + o.count - n, openStop := o.start + o.count,
+                   closeStart := c.start, closeStop := c.start + n, strong := n == 2 } :: st.found } := by
+  subst hn
+  simp [stepNB, forget, Emphasis.step, ha, hcl, noBottoms, hlb]
+
+/-- **Simulation.**  From a stack of the specification and the corresponding `delimiters` list,
+    with the same matches so far, the loop of `process_emphasis` without bottoms (if it does not
+    fail) returns the matches of the specification's procedure without `openers_bottom`. -/
+theorem sim (s : Str) : ∀ (n : Nat) (st : Emphasis.State) (fuelM : Nat) (r : List Delim × List CoreM),
+    Pos st → Emphasis.measure st ≤ n →
+    emphLoopNB s none fuelM (dsOf st.below st.above) (st.found.map (toCoreM s))
+      (nextCloser st.below.length (dsOf st.below st.above)) = .ok r →
+    r.2 = (runNB n st).found.map (toCoreM s) := by
+  intro n
+  induction n with
+  | zero =>
+    intro st fuelM r hpos hm h
+    have ha : st.above = [] := by
+      cases ha : st.above with
+      | nil => rfl
+      | cons c rest => simp [Emphasis.measure, ha] at hm
+    rw [nextCloser_dsOf, ha] at h
+    simp only [List.map_nil, nextCloser.go] at h
+    rw [emphLoopNB_none s _ _ _ _ h]
+    rfl
+  | succ n ih =>
+    intro st fuelM r hpos hm h
+    cases ha : st.above with
+    | nil =>
+      rw [nextCloser_dsOf, ha] at h
+      simp only [List.map_nil, nextCloser.go] at h
+      rw [emphLoopNB_none s _ _ _ _ h, runNB_none _ _ (stepNB_nil st ha)]
+    | cons c rest =>
+      have hposb : ∀ r ∈ st.below, 1 ≤ r.count := fun r hr => hpos r (by simp [hr])
+      have hposc : 1 ≤ c.count := hpos c (by simp [ha])
+      rw [ha] at h
+      cases hcl : c.canClose with
+      | false =>
+        have hstep := stepNB_shift st c rest ha hcl
+        obtain ⟨hm', hpos'⟩ := stepNB_measure st _ hpos hstep
+        simp only [runNB, hstep]
+        apply ih _ fuelM r hpos' (by omega)
+        simp only
+        rw [nextCloser_dsOf, dsOf_shift, List.length_cons]
+        rw [nextCloser_dsOf, List.map_cons, nextCloser_go_cons, hcl] at h
+        exact h
+      | true =>
+        rw [nextCloser_dsOf, List.map_cons, nextCloser_go_cons, hcl] at h
+        simp only [if_true] at h
+        obtain ⟨f, ds', ms', c', hf, hstepM, hloop⟩ := emphLoopNB_some s _ _ _ _ _ h
+        cases hlb : Emphasis.lookBack c none st.below with
+        | none =>
+          have hstep := stepNB_nomatch st c rest ha hcl hlb
+          obtain ⟨hm', hpos'⟩ := stepNB_measure st _ hpos hstep
+          simp only [runNB, hstep]
+          have hmo := matchingOpener_below c hposc st.below (rest.map toDelim) hposb
+          rw [hlb] at hmo
+          simp only at hmo
+          have hcur : (dsOf st.below (c :: rest))[st.below.length]? = some (toDelim c) := by
+            simp [dsOf]
+          have hdsf : dsOf st.below (c :: rest) = st.below.reverse.map toDelim ++ toDelim c :: rest.map toDelim := by
+            simp [dsOf]
+          rw [← hdsf] at hmo
+          rw [emphStepNB_none s _ _ _ (toDelim c) c.char hcur (toDelim_head c hposc) hmo] at hstepM
+          apply ih _ f r hpos' (by omega)
+          simp only
+          cases hco : c.canOpen with
+          | false =>
+            have hop : (toDelim c).opens = false := hco
+            simp only [hop, Bool.not_false, if_true, Res.ok.injEq, Prod.mk.injEq] at hstepM
+            obtain ⟨⟨rfl, rfl⟩, rfl⟩ := hstepM
+            have herase : (dsOf st.below (c :: rest)).eraseIdx st.below.length = dsOf st.below rest := by
+              rw [hdsf]
+              have := erase_mid (st.below.reverse.map toDelim) (rest.map toDelim) (toDelim c)
+              simpa [dsOf] using this
+            rw [herase] at hloop
+            simpa using hloop
+          | true =>
+            have hop : (toDelim c).opens = true := hco
+            simp only [hop, Bool.not_true, Bool.false_eq_true, if_false, Res.ok.injEq, Prod.mk.injEq] at hstepM
+            obtain ⟨⟨rfl, rfl⟩, rfl⟩ := hstepM
+            simp only [if_true]
+            rw [dsOf_shift, List.length_cons]
+            exact hloop
+        | some p =>
+          obtain ⟨o, under⟩ := p
+          obtain ⟨skipped, hsk⟩ := lookBack_none_split c st.below o under hlb
+          have hstep := stepNB_match st c rest ha hcl o under hlb _ rfl
+          obtain ⟨hm', hpos'⟩ := stepNB_measure st _ hpos hstep
+          simp only [runNB, hstep]
+          have hM := emphStepNB_matched s under skipped rest o c (st.found.map (toCoreM s))
+            (by rw [← hsk]; exact hposb) hposc (by rw [← hsk]; exact hlb) _ rfl _ _ rfl rfl
+          rw [← hsk, hstepM] at hM
+          apply ih _ f r hpos' (by omega)
+          simp only
+          split at hM
+          · cases hM
+          · simp only [Res.ok.injEq, Prod.mk.injEq] at hM
+            obtain ⟨⟨rfl, rfl⟩, rfl⟩ := hM
+            simpa using hloop
+
+/-! ### `openers_bottom` is sound: the procedure of the specification = the procedure without it -/
+
+/-- `canMatch e c` as a function of `e` and the `openers_bottom` index of the closer `c` -/
+def keyMatch (e : Emphasis.Run) (k : Emphasis.Key) : Bool :=
+  e.canOpen && e.char == k.1 &&
+    (if (e.canOpen && e.canClose) || k.2.1 then (e.orig + k.2.2) % 3 != 0 || (e.orig % 3 == 0 && k.2.2 % 3 == 0)
+     else true)
+
+theorem canMatch_key (e c : Emphasis.Run) (hcl : c.canClose = true) :
+    Emphasis.canMatch e c = keyMatch e (Emphasis.keyOf c) := by
+  unfold Emphasis.canMatch keyMatch Emphasis.ruleOfThree Emphasis.keyOf
+  simp only [hcl, Bool.and_true]
+  have e1 : (e.orig + c.orig % 3) % 3 = (e.orig + c.orig) % 3 := by omega
+  have e2 : c.orig % 3 % 3 = c.orig % 3 := by omega
+  rw [e1, e2]
+
+theorem lookBack_none_all (c : Emphasis.Run) (b : Option Nat) : ∀ (l : List Emphasis.Run),
+    (∀ e ∈ l, Emphasis.canMatch e c = false) → Emphasis.lookBack c b l = none
+  | [], _ => rfl
+  | o :: rest, h => by
+    simp only [Emphasis.lookBack, h o (by simp), Bool.false_eq_true, if_false]
+    split
+    · exact lookBack_none_all c b rest (fun e he => h e (by simp [he]))
+    · rfl
+
+theorem lookBack_none_conv (c : Emphasis.Run) : ∀ (l : List Emphasis.Run),
+    Emphasis.lookBack c none l = none → ∀ e ∈ l, Emphasis.canMatch e c = false
+  | [], _, e, he => by cases he
+  | o :: rest, h, e, he => by
+    simp only [Emphasis.lookBack, Emphasis.aboveBottom, if_true] at h
+    split at h
+    · cases h
+    · rename_i hno
+      rcases List.mem_cons.1 he with rfl | he
+      · simpa using hno
+      · exact lookBack_none_conv c rest h e he
+
+/-- searching down to a sound bottom = searching down to the bottom of the stack -/
+theorem lookBack_bottom (c : Emphasis.Run) (p : Nat) : ∀ (l : List Emphasis.Run),
+    l.Pairwise (fun a b => b.start + b.count ≤ a.start) →
+    (∀ e ∈ l, e.start ≤ p → Emphasis.canMatch e c = false) →
+    Emphasis.lookBack c (some p) l = Emphasis.lookBack c none l
+  | [], _, _ => rfl
+  | o :: rest, hs, h => by
+    have hs' := List.pairwise_cons.1 hs
+    by_cases hp : p < o.start
+    · simp only [Emphasis.lookBack, Emphasis.aboveBottom, hp, decide_true, if_true]
+      rw [lookBack_bottom c p rest hs'.2 (fun e he => h e (by simp [he]))]
+    · have hall : ∀ e ∈ o :: rest, Emphasis.canMatch e c = false := by
+        intro e he
+        apply h e he
+        rcases List.mem_cons.1 he with rfl | he
+        · omega
+        · have := hs'.1 e he; omega
+      rw [lookBack_none_all c none _ hall]
+      simp [Emphasis.lookBack, Emphasis.aboveBottom, hp]
+
+/-- Invariant of the stack and of `openers_bottom`: the stack is in text order with disjoint
+    entries; for every recorded bottom `p` of an index `k`, no entry under `current_position` at or
+    below position `p` is an opener that a closer with index `k` matches, and `p` lies before
+    `current_position`. -/
+structure SInv (st : Emphasis.State) : Prop where
+  sortedB : st.below.Pairwise (fun a b => b.start + b.count ≤ a.start)
+  sortedA : st.above.Pairwise (fun a b => a.start + a.count ≤ b.start)
+  cross : ∀ b ∈ st.below, ∀ a ∈ st.above, b.start + b.count ≤ a.start
+  bot : ∀ k p, st.bottoms k = some p →
+    (∀ e ∈ st.below, e.start ≤ p → keyMatch e k = false) ∧ ∀ a ∈ st.above, p < a.start
+
+/-- with the invariant, the opener found is the one found without `openers_bottom` -/
+theorem lookBack_sound (st : Emphasis.State) (hinv : SInv st) (c : Emphasis.Run) (hcl : c.canClose = true) :
+    Emphasis.lookBack c (st.bottoms (Emphasis.keyOf c)) st.below = Emphasis.lookBack c none st.below := by
+  cases hb : st.bottoms (Emphasis.keyOf c) with
+  | none => rfl
+  | some p =>
+    apply lookBack_bottom c p st.below hinv.sortedB
+    intro e he hle
+    rw [canMatch_key e c hcl]
+    exact (hinv.bot _ p hb).1 e he hle
+
+/-- one round with `openers_bottom`, forgetting them, is one round without -/
+theorem step_forget (st : Emphasis.State) (hinv : SInv st) : (Emphasis.step st).map forget = stepNB st := by
+  unfold stepNB Emphasis.step
+  cases ha : st.above with
+  | nil => simp [forget, ha]
+  | cons c rest =>
+    have ha' : (forget st).above = c :: rest := ha
+    simp only [ha']
+    cases hcl : c.canClose with
+    | false => simp [forget]
+    | true =>
+      simp only [Bool.not_true, Bool.false_eq_true, if_false]
+      rw [lookBack_sound st hinv c hcl]
+      have hb : (forget st).bottoms (Emphasis.keyOf c) = none := rfl
+      have hbl : (forget st).below = st.below := rfl
+      rw [hb, hbl]
+      cases Emphasis.lookBack c none st.below with
+      | none => simp [forget]
+      | some p => simp [forget]
+
+theorem keyMatch_count (e : Emphasis.Run) (n : Nat) (k : Emphasis.Key) :
+    keyMatch { e with count := n } k = keyMatch e k := rfl
+
+/-- **Every round keeps the invariant of `openers_bottom`.** -/
+theorem SInv.step {st st' : Emphasis.State} (hinv : SInv st) (hpos : Pos st) (h : Emphasis.step st = some st') :
+    SInv st' := by
+  unfold Emphasis.step at h
+  cases ha : st.above with
+  | nil => rw [ha] at h; cases h
+  | cons c rest =>
+    rw [ha] at h
+    simp only at h
+    have hposb : ∀ r ∈ st.below, 1 ≤ r.count := fun r hr => hpos r (by simp [hr])
+    have hposc : 1 ≤ c.count := hpos c (by simp [ha])
+    have hsA := hinv.sortedA
+    rw [ha] at hsA
+    have hsA' := List.pairwise_cons.1 hsA
+    have hcross : ∀ b ∈ st.below, ∀ a ∈ c :: rest, b.start + b.count ≤ a.start := by
+      intro b hb a ha'; exact hinv.cross b hb a (by rw [ha]; exact ha')
+    have hbot : ∀ k p, st.bottoms k = some p →
+        (∀ e ∈ st.below, e.start ≤ p → keyMatch e k = false) ∧ ∀ a ∈ c :: rest, p < a.start := by
+      intro k p hk
+      obtain ⟨h1, h2⟩ := hinv.bot k p hk
+      exact ⟨h1, fun a ha' => h2 a (by rw [ha]; exact ha')⟩
+    -- pushing the element at `current_position` onto the part below keeps everything
+    have push : ∀ (bs : Emphasis.Key → Option Nat),
+        (∀ k p, bs k = some p → (∀ e ∈ st.below, e.start ≤ p → keyMatch e k = false) ∧ ∀ a ∈ c :: rest, p < a.start) →
+        SInv { below := c :: st.below, above := rest, bottoms := bs, found := st.found } := by
+      intro bs hbs
+      refine ⟨List.pairwise_cons.2 ⟨fun b hb => hcross b hb c (by simp), hinv.sortedB⟩, hsA'.2, ?_, ?_⟩
+      · intro b hb a ha'
+        rcases List.mem_cons.1 hb with rfl | hb
+        · exact hsA'.1 a ha'
+        · exact hcross b hb a (by simp [ha'])
+      · intro k p hk
+        obtain ⟨h1, h2⟩ := hbs k p hk
+        refine ⟨fun e he hle => ?_, fun a ha' => h2 a (by simp [ha'])⟩
+        rcases List.mem_cons.1 he with rfl | he
+        · have := h2 e (by simp); omega
+        · exact h1 e he hle
+    have drop : ∀ (bs : Emphasis.Key → Option Nat),
+        (∀ k p, bs k = some p → (∀ e ∈ st.below, e.start ≤ p → keyMatch e k = false) ∧ ∀ a ∈ c :: rest, p < a.start) →
+        SInv { below := st.below, above := rest, bottoms := bs, found := st.found } := by
+      intro bs hbs
+      refine ⟨hinv.sortedB, hsA'.2, fun b hb a ha' => hcross b hb a (by simp [ha']), ?_⟩
+      intro k p hk
+      obtain ⟨h1, h2⟩ := hbs k p hk
+      exact ⟨h1, fun a ha' => h2 a (by simp [ha'])⟩
+    split at h
+    · cases h
+      exact push st.bottoms hbot
+    · rename_i hcl
+      have hcl' : c.canClose = true := by simpa using hcl
+      split at h
+      · rename_i o under hlb
+        obtain ⟨sk, hsk⟩ := lookBack_split c _ _ o under hlb
+        cases h
+        have hn : (if (decide (2 ≤ o.count) && decide (2 ≤ c.count)) = true then 2 else 1) ≤ o.count ∧
+            (if (decide (2 ≤ o.count) && decide (2 ≤ c.count)) = true then 2 else 1) ≤ c.count ∧
+            1 ≤ (if (decide (2 ≤ o.count) && decide (2 ≤ c.count)) = true then 2 else 1) := by
+          have := hposb o (by rw [hsk]; simp)
+          split
+          · rename_i h2; simp only [Bool.and_eq_true, decide_eq_true_eq] at h2; omega
+          · omega
+        generalize (if (decide (2 ≤ o.count) && decide (2 ≤ c.count)) = true then 2 else 1) = n at hn ⊢
+        have hsB := hinv.sortedB
+        rw [hsk] at hsB
+        have hsB2 := (List.pairwise_append.1 hsB).2.1
+        have hsB3 := List.pairwise_cons.1 hsB2
+        have hmo : o ∈ st.below := by rw [hsk]; simp
+        have hmu : ∀ u ∈ under, u ∈ st.below := fun u hu => by rw [hsk]; simp [hu]
+        -- every new entry lies inside an old one on the same side
+        have hB : ∀ b ∈ (if o.count - n = 0 then under else { o with count := o.count - n } :: under),
+            ∃ b0 ∈ st.below, b.start = b0.start ∧ b.count ≤ b0.count ∧ ∀ k, keyMatch b k = keyMatch b0 k := by
+          intro b hb
+          split at hb
+          · exact ⟨b, hmu b hb, rfl, Nat.le_refl _, fun _ => rfl⟩
+          · rcases List.mem_cons.1 hb with rfl | hb
+            · exact ⟨o, hmo, rfl, Nat.sub_le _ _, fun _ => rfl⟩
+            · exact ⟨b, hmu b hb, rfl, Nat.le_refl _, fun _ => rfl⟩
+        have hA : ∀ a ∈ (if c.count - n = 0 then rest else { c with start := c.start + n, count := c.count - n } :: rest),
+            ∃ a0 ∈ c :: rest, a0.start ≤ a.start := by
+          intro a ha'
+          split at ha'
+          · exact ⟨a, by simp [ha'], Nat.le_refl _⟩
+          · rcases List.mem_cons.1 ha' with rfl | ha'
+            · exact ⟨c, by simp, Nat.le_add_right _ _⟩
+            · exact ⟨a, by simp [ha'], Nat.le_refl _⟩
+        refine ⟨?_, ?_, ?_, ?_⟩
+        · show (if o.count - n = 0 then under else { o with count := o.count - n } :: under).Pairwise _
+          split
+          · exact hsB3.2
+          · exact List.pairwise_cons.2 ⟨fun u hu => hsB3.1 u hu, hsB3.2⟩
+        · show (if c.count - n = 0 then rest else { c with start := c.start + n, count := c.count - n } :: rest).Pairwise _
+          split
+          · exact hsA'.2
+          · refine List.pairwise_cons.2 ⟨fun a ha' => ?_, hsA'.2⟩
+            have := hsA'.1 a ha'
+            show c.start + n + (c.count - n) ≤ a.start
+            omega
+        · intro b hb a ha'
+          obtain ⟨b0, hb0, e1, e2, _⟩ := hB b hb
+          obtain ⟨a0, ha0, e3⟩ := hA a ha'
+          have := hcross b0 hb0 a0 ha0
+          omega
+        · intro k p hk
+          obtain ⟨h1, h2⟩ := hbot k p hk
+          refine ⟨fun e he hle => ?_, fun a ha' => ?_⟩
+          · obtain ⟨b0, hb0, e1, _, e3⟩ := hB e he
+            rw [e3 k]
+            exact h1 b0 hb0 (by omega)
+          · obtain ⟨a0, ha0, e3⟩ := hA a ha'
+            have := h2 a0 ha0
+            omega
+      · rename_i hlb
+        cases h
+        rw [lookBack_sound st hinv c hcl'] at hlb
+        have hnm := lookBack_none_conv c st.below hlb
+        have hbs : ∀ k p, (if k = Emphasis.keyOf c then st.below.head?.map (·.start) else st.bottoms k) = some p →
+            (∀ e ∈ st.below, e.start ≤ p → keyMatch e k = false) ∧ ∀ a ∈ c :: rest, p < a.start := by
+          intro k p hk
+          split at hk
+          · rename_i hkc
+            subst hkc
+            cases hb : st.below with
+            | nil => rw [hb] at hk; cases hk
+            | cons e0 bs =>
+              rw [hb] at hk
+              simp only [List.head?_cons, Option.map_some, Option.some.injEq] at hk
+              subst hk
+              have he0 : e0 ∈ st.below := by rw [hb]; simp
+              refine ⟨fun e he _ => ?_, fun a ha' => ?_⟩
+              · rw [← canMatch_key e c hcl']
+                exact hnm e (by rw [hb]; exact he)
+              · have := hcross e0 he0 a ha'
+                have := hposb e0 he0
+                omega
+          · exact hbot k p hk
+        split
+        · exact push _ hbs
+        · exact drop _ hbs
+
+theorem forget_forget (st : Emphasis.State) : forget (forget st) = forget st := rfl
+
+theorem stepNB_forget (st : Emphasis.State) : stepNB (forget st) = stepNB st := rfl
+
+/-- **The procedure of the specification computes what the procedure without `openers_bottom`
+    computes** (same stack, same emphasis nodes), from any state that satisfies the invariant. -/
+theorem run_forget : ∀ (n : Nat) (st : Emphasis.State), SInv st → Pos st →
+    forget (Emphasis.run n st) = runNB n (forget st)
+  | 0, _, _, _ => rfl
+  | n + 1, st, hinv, hpos => by
+    simp only [Emphasis.run, runNB, stepNB_forget, ← step_forget st hinv]
+    cases hs : Emphasis.step st with
+    | none => rfl
+    | some st' =>
+      simp only [Option.map_some]
+      exact run_forget n st' (hinv.step hpos hs) (step_measure st st' hpos hs).2
+
+/-! ### the refinement theorems -/
+
+theorem runsM_pos (s : Str) : ∀ r ∈ runsM s, 1 ≤ r.count := by
+  intro r hr
+  obtain ⟨x, hx, rfl⟩ := List.mem_map.1 hr
+  exact (runSpans_spec s [] none x (by simpa using hx)).2.2.1
+
+theorem runsM_sorted (s : Str) : (runsM s).Pairwise (fun a b => a.start + a.count ≤ b.start) :=
+  List.pairwise_map.2 (runSpans_sorted s none 0)
+
+theorem initial_pos (rs : List Emphasis.Run) (hpos : ∀ r ∈ rs, 1 ≤ r.count) : Pos (Emphasis.initial rs) := by
+  intro r hr
+  exact hpos r (by simpa [Emphasis.initial] using hr)
+
+theorem initial_sinv (rs : List Emphasis.Run) (hs : rs.Pairwise (fun a b => a.start + a.count ≤ b.start)) :
+    SInv (Emphasis.initial rs) :=
+  ⟨List.Pairwise.nil, hs, fun b hb => by cases hb, fun k p hk => by cases hk⟩
+
+/-- **`process_emphasis` (without bottoms) computes *process emphasis* of the specification**
+    (with `openers_bottom`), on any stack of non-empty entries in text order: if it does not fail,
+    its matches are the emphasis nodes of the specification, in the same order. -/
+theorem processEmphasisNB_spec (s : Str) (rs : List Emphasis.Run) (hpos : ∀ r ∈ rs, 1 ≤ r.count)
+    (hs : rs.Pairwise (fun a b => a.start + a.count ≤ b.start)) (ds' : List Delim) (ms' : List CoreM)
+    (h : processEmphasisNB s none (rs.map toDelim) [] = .ok (ds', ms')) :
+    ms'.reverse = (Emphasis.process rs).map (toCoreM s) := by
+  unfold processEmphasisNB at h
+  cases hl : emphLoopNB s none (2 * s.length + 2 * (rs.map toDelim).length + 4) (rs.map toDelim) []
+      (nextCloser (Option.getD none 0) (rs.map toDelim)) with
+  | err e => rw [hl] at h; cases h
+  | ok r =>
+    rw [hl] at h
+    obtain ⟨rd, rm⟩ := r
+    simp only [Res.ok.injEq, Prod.mk.injEq] at h
+    obtain ⟨_, rfl⟩ := h
+    have hP := initial_pos rs hpos
+    have hsim := sim s (Emphasis.measure (Emphasis.initial rs)) (Emphasis.initial rs) _ (rd, rm) hP (Nat.le_refl _)
+      (by simpa [Emphasis.initial, dsOf] using hl)
+    have hrf := run_forget (Emphasis.measure (Emphasis.initial rs)) (Emphasis.initial rs) (initial_sinv rs hs) hP
+    have hfi : forget (Emphasis.initial rs) = Emphasis.initial rs := rfl
+    rw [hfi] at hrf
+    simp only at hsim
+    rw [hsim, ← hrf, ← List.map_reverse]
+    rfl
+
+/-- **Refinement, first form (every plain text).**  For every text `s` of the fragment (no `\`,
+    backtick, `[`, `]`, `<`, `&`) and every table of link reference definitions,
+    `find_core_tokens(s, root)` returns exactly the emphasis nodes that *process emphasis* of the
+    specification (with `openers_bottom`, the rule of three on original run lengths, strong iff both
+    lengths ≥ 2, …) computes on the delimiter runs of `s`, in the same order, with the same four
+    positions and the same kind, and no code span.  Here the runs are those of the specification
+    (`runSpans`), classified as opener / closer by mistletoe's own `is_opener` / `is_closer`
+    (`runsM`); the second form replaces this classification by the specification's. -/
+theorem findCoreTokens_process (s : Str) (fn : Footnotes.Table) (hp : Emphasis.plain s = true) :
+    findCoreTokens s fn = .ok ((Emphasis.process (runsM s)).map (toCoreM s), []) := by
+  obtain ⟨r0, hr0⟩ := findCoreTokens_ok s fn
+  rw [findCoreTokens_eq_noBottoms, findCoreTokensNB_plain s fn hp] at hr0 ⊢
+  cases hpe : processEmphasisNB s none ((runsM s).map toDelim) [] with
+  | err e => rw [hpe] at hr0; cases hr0
+  | ok x =>
+    obtain ⟨ds', ms'⟩ := x
+    simp only
+    rw [processEmphasisNB_spec s (runsM s) (runsM_pos s) (runsM_sorted s) ds' ms' hpe]
+
+/-- **Refinement (main theorem).**  For every text `s` of the fragment that contains none of the
+    eight code points which `core_tokens.unicode_whitespace` wrongly counts as Unicode whitespace
+    (U+000B, U+001C–U+001F, U+0085, U+2028, U+2029: `StdWs s`), and every table of link reference
+    definitions, `find_core_tokens(s, root)` returns exactly `Spec.Emphasis.emphasis s`, mapped to
+    the model's match record: same `start`/`ts`/`te`/`stop`, same kind, same order; and no code span.
+
+    `_partial`: the hypothesis `StdWs s` was added because the statement is false without it
+    (`not_refines_deviant` below): mistletoe treats those eight characters as whitespace in the
+    flanking tests, the specification (0.30, section 2.1) does not. -/
+theorem findCoreTokens_refines_spec_partial (s : Str) (fn : Footnotes.Table) (hp : Emphasis.plain s = true)
+    (hw : StdWs s) :
+    findCoreTokens s fn = .ok ((Emphasis.emphasis s).map (toCoreM s), []) := by
+  rw [findCoreTokens_process s fn hp, runsM_eq s hw]
+  rfl
 
 end Mistletoe.EmphRefine
